@@ -434,7 +434,11 @@ def merge_runs(data: ArrayLike, digits: Optional[Integer] = None):
         return data
     mask = np.zeros(len(data), dtype=bool)
     mask[0] = True
-    mask[1:] = np.abs(data[1:] - data[:-1]) > epsilon
+    # not `np.abs`: the most negative value of a signed integer
+    # type is its own absolute value so a wrapped difference of
+    # exactly half the range of the type would look like a repeat
+    delta = data[1:] - data[:-1]
+    mask[1:] = np.logical_or(delta > epsilon, delta < -epsilon)
 
     return data[mask]
 
